@@ -192,8 +192,16 @@ func HarnessC13Conc() {
 	g := sym.Param("g")
 	t := &tracer{}
 	var opts []fox.GlobalOption
+	api := sym.Param("api") // 0 WithMiddleware, 1 WithMiddlewareFor, 2 WithMiddleware then DefaultOptions
 	for i := 0; i < g; i++ {
-		opts = append(opts, fox.WithMiddleware(t.mw(i)))
+		if api == 1 {
+			opts = append(opts, fox.WithMiddlewareFor(fox.AllHandlers, t.mw(i)))
+		} else {
+			opts = append(opts, fox.WithMiddleware(t.mw(i)))
+		}
+	}
+	if api == 2 {
+		opts = append(opts, fox.DefaultOptions())
 	}
 	r, err := fox.New(opts...)
 	if err != nil {
